@@ -47,6 +47,12 @@
 (*   strfn       C14  length upper lower startsWith endsWith contains      *)
 (*                    indexOf substring toChars replace on a logged String *)
 (*                    input with logged arguments is what FPStrings says   *)
+(*   temporal    C09  a Date/DateTime/Time plus or minus a logged quantity *)
+(*                    with a calendar-keyword unit is one of FPTemporal's  *)
+(*                    reference results; a unit that is no unit of time is *)
+(*                    an error (UCUM codes, calendar units on a Time, sub-  *)
+(*                    day units on a Date and results outside 0001..9999   *)
+(*                    are left to the dedicated check)                     *)
 (*   convfn      C13  toT() / convertsToT() of a logged System value is    *)
 (*                    what FPConvert's conversion table says (Quantity,    *)
 (*                    ambiguous date texts and the recorded toInteger      *)
@@ -76,6 +82,7 @@ Cmp == INSTANCE FPCompare
 Ar  == INSTANCE FPArith
 St  == INSTANCE FPStrings
 Cv  == INSTANCE FPConvert
+Tm  == INSTANCE FPTemporal
 
 Frame(e) == [k |-> e.k, p |-> e.p, in |-> e.in, inh |-> e.inh, ic |-> e.ic, inv |-> e.inv, kids |-> <<>>]
 Kid(f, e) == [k |-> f.k, in |-> f.in, ok |-> e.ok, out |-> e.out, cls |-> e.cls, hi |-> e.hi, iv |-> e.iv, ov |-> e.outv]
@@ -179,6 +186,19 @@ NegLaw(f, e) ==
        THEN {} ELSE {<<"arith", "C08">>}
   ELSE {}
 
+TemporalLaw(f, e) ==
+  LET kl == f.kids[1]  kr == f.kids[2]  op == ArithOp(f.p)
+      bad(c) == IF c THEN {} ELSE {<<"temporal", "C09">>}
+  IN IF ~(Len(f.kids) = 2 /\ op \in {"+", "-"} /\ OneVal(kl, {"date", "dt", "time"}) /\ OneVal(kr, {"q"})) THEN {}
+     ELSE LET a == kl.ov[1]  b == kr.ov[1] IN
+          IF b.u = "" THEN {}
+          ELSE IF ~Tm!IsTemporalUnit(b.u) THEN bad(~e.ok)
+          ELSE LET rank == Tm!RankOf(b.u) IN
+               IF Tm!ClsOf(b.u) = "ucum" \/ Tm!TimeHasNoUnit(a, rank) \/ (a.t = "date" /\ rank \in {"hour", "minute", "second", "ms"}) THEN {}
+               ELSE LET R == Tm!Results(a, op, rank, b.th) IN
+                    IF \E r \in R : r.oob THEN {}
+                    ELSE bad(e.ok /\ Len(e.out) = 1 /\ Valued(e.outv, e.out) /\ \E r \in R : Cmp!ItemSame(e.outv[1], r.v))
+
 StrOut(e) == e.ok /\ Len(e.out) = 1 /\ Valued(e.outv, e.out) /\ e.outv[1].t = "s"
 StrsOut(e) == e.ok /\ Valued(e.outv, e.out) /\ \A j \in 1..Len(e.outv) : e.outv[j].t = "s"
 Cps(vs) == [j \in 1..Len(vs) |-> vs[j].cp]
@@ -273,7 +293,7 @@ EndLaws(f, e) ==
   \cup (IF f.k = "Function" THEN FnLaws(f, e) \cup StrLaw(f, e) \cup ConvLaw(f, e) ELSE {})
   \cup (IF f.k = "Equality" THEN EqLaw(f, e) ELSE {})
   \cup (IF f.k = "Comparison" THEN CmpLaw(f, e) ELSE {})
-  \cup (IF f.k = "Arithmetic" THEN ArithLaw(f, e) ELSE {})
+  \cup (IF f.k = "Arithmetic" THEN ArithLaw(f, e) \cup TemporalLaw(f, e) ELSE {})
   \cup (IF f.k = "Negation" THEN NegLaw(f, e) ELSE {})
 
 Report(e, laws) ==
